@@ -355,6 +355,17 @@ func (cx *Ctx) keyPrefix(v ssa.Value, fr *frame, depth int, out map[string]bool)
 				out["field:"+fieldName(fa)] = true
 				return
 			}
+			if ia, ok := x.X.(*ssa.IndexAddr); ok {
+				// an element of a list of keys (for _, key := range keys { store.Delete(key) }):
+				// the prefixes of the keys that were appended to the list
+				if _, isSlice := ia.X.Type().Underlying().(*types.Slice); isSlice {
+					n := len(out)
+					cx.keyListElems(ia.X, fr, depth+1, out, map[ssa.Value]bool{})
+					if len(out) > n {
+						return
+					}
+				}
+			}
 		}
 		out["?unop"] = true
 	case *ssa.Convert:
@@ -560,6 +571,11 @@ func isNilOrEmpty(v ssa.Value) bool {
 	switch x := v.(type) {
 	case *ssa.Const:
 		return x.IsNil()
+	case *ssa.MakeSlice:
+		// make([]byte, 0, n)
+		if c, ok := x.Len.(*ssa.Const); ok && c.Value != nil && c.Int64() == 0 {
+			return true
+		}
 	case *ssa.Slice:
 		// []byte{}[:] of zero-length alloc
 		if a, ok := x.X.(*ssa.Alloc); ok {
@@ -569,6 +585,67 @@ func isNilOrEmpty(v ssa.Value) bool {
 		}
 	}
 	return false
+}
+
+// keyListElems: the key prefixes of the elements of a [][]byte that is filled by
+// append(list, key) (possibly in a loop, possibly inside a helper that returns it).
+func (cx *Ctx) keyListElems(v ssa.Value, fr *frame, depth int, out map[string]bool, seen map[ssa.Value]bool) {
+	if depth > 12 || seen[v] {
+		return
+	}
+	seen[v] = true
+	switch x := v.(type) {
+	case *ssa.Phi:
+		for _, e := range x.Edges {
+			cx.keyListElems(e, fr, depth+1, out, seen)
+		}
+	case *ssa.Slice:
+		cx.keyListElems(x.X, fr, depth+1, out, seen)
+	case *ssa.UnOp:
+		if x.Op == token.MUL {
+			if a, ok := x.X.(*ssa.Alloc); ok {
+				for _, ref := range *a.Referrers() {
+					if st, ok := ref.(*ssa.Store); ok && st.Addr == a {
+						cx.keyListElems(st.Val, fr, depth+1, out, seen)
+					}
+				}
+			}
+		}
+	case *ssa.Parameter:
+		if fr != nil && fr.call.Common().StaticCallee() == x.Parent() {
+			for i, p := range x.Parent().Params {
+				if p == x && i < len(fr.call.Call.Args) {
+					cx.keyListElems(fr.call.Call.Args[i], fr.parent, depth+1, out, seen)
+				}
+			}
+		}
+	case *ssa.Call:
+		c := x.Common()
+		pkg, name := calleeName(c)
+		if pkg == "builtin" && name == "append" {
+			cx.keyListElems(c.Args[0], fr, depth+1, out, seen)
+			if len(c.Args) > 1 {
+				if elems := variadicElems(c.Args[1]); elems != nil {
+					for _, e := range elems {
+						if e != nil {
+							cx.keyPrefix(e, fr, depth+1, out)
+						}
+					}
+				} else {
+					cx.keyListElems(c.Args[1], fr, depth+1, out, seen)
+				}
+			}
+			return
+		}
+		if f := c.StaticCallee(); f != nil && !c.IsInvoke() && isIrismodFunc(f) && f.Blocks != nil {
+			nfr := &frame{call: x, parent: fr}
+			for _, b := range f.Blocks {
+				if ret, ok := b.Instrs[len(b.Instrs)-1].(*ssa.Return); ok && len(ret.Results) > 0 {
+					cx.keyListElems(ret.Results[0], nfr, depth+1, out, seen)
+				}
+			}
+		}
+	}
 }
 
 func (cx *Ctx) iterPrefix(it ssa.Value, fr *frame, depth int, out map[string]bool) {
